@@ -30,27 +30,6 @@ Section FpGen.
   Notation prog := (prog addr V).
   Variables R W : addr -> bool.
 
-  Fixpoint results {X} (p : prog X) (Q : X -> Prop) : Prop :=
-    match p with
-    | Ret x => Q x
-    | Fail => True
-    | Rd a k => forall v, results (k v) Q
-    | Wr a v k => results k Q
-    end.
-
-  Lemma fp_bind {X Y} (p : prog X) (f : X -> prog Y) (Q : X -> Prop) :
-    fp R W p -> results p Q -> (forall x, Q x -> fp R W (f x)) -> fp R W (bind p f).
-  Proof.
-    induction p; simpl; intros F Rs Hf; auto.
-    - destruct F as [Ra F]. split; auto.
-    - destruct F as [Wa F]. split; auto.
-  Qed.
-  Lemma results_bind {X Y} (p : prog X) (f : X -> prog Y) (Q : X -> Prop) (Q' : Y -> Prop) :
-    results p Q -> (forall x, Q x -> results (f x) Q') -> results (bind p f) Q'.
-  Proof. induction p; simpl; intros Rs Hf; auto. Qed.
-  Lemma results_true {X} (p : prog X) : results p (fun _ => True).
-  Proof. induction p; simpl; auto. Qed.
-
   Variable sh : shapes.
   Lemma fp_rd b o : R (b, o) = true -> fp R W (rd V sh b o).
   Proof. intros H. unfold rd. destruct (o <? bsize sh b); simpl; auto. Qed.
@@ -179,16 +158,17 @@ Section CellFp.
     apply in_concat. eauto.
   Qed.
 
-  Theorem fp_cell : K_state_len -> forall i, fp (Rb i) (Wb i) (cell_prog V toZ K sp sh pviews i).
+  (** The goroutine body after the parameter reads, for ANY read / write sets
+      that contain its state row, input rows and output rows. *)
+  Lemma fp_cell_body (R W : addr -> bool) i :
+    (forall o, In o (seq (i * S) (state_cols sp S)) -> R (BS, o) = true) ->
+    (forall o, In o (concat (in_rows sp nIn nI T i)) -> R (BI, o) = true) ->
+    (forall o, In o (concat (out_rows sp T oK oT i)) -> R (BO, o) = true) ->
+    (forall o, In o (concat (out_rows sp T oK oT i)) -> W (BO, o) = true) ->
+    (forall o, In o (seq (i * S) (state_cols sp S)) -> W (BS, o) = true) ->
+    K_state_len -> forall cp, fp R W (cell_body V K sp sh (prologue sh) i (i mod nIn) cp).
   Proof.
-    intros KL i. unfold cell_prog. cbv zeta.
-    change (numInputSequences (prologue sh)) with nIn.
-    destruct (gomod i nIn) as [ci|] eqn:Eg; [|simpl; auto].
-    assert (Eci : ci = i mod nIn).
-    { unfold gomod in Eg. destruct (Nat.eqb nIn 0); inversion Eg; auto. }
-    subst ci.
-    apply fp_bind with (Q := fun _ => True); [apply fp_read_params; apply Rb_BP | apply results_true |].
-    intros cp _.
+    intros Rb_state Rb_input Rb_output Wb_output Wb_state KL cp. unfold cell_body.
     destruct (s_states sp) as [k|] eqn:Es.
     - (* Fixed k *)
       assert (Ec : state_cols sp S = k) by (unfold state_cols; rewrite Es; reflexivity).
@@ -245,6 +225,124 @@ Section CellFp.
       intros _ _. rewrite Es. rewrite packed_state_view_offsets.
       apply fp_wr_list. apply Forall_forall. intros o Ho. apply Wb_state. rewrite Ec.
       apply KL in EK. rewrite Hst in EK. apply in_seq in Ho. apply in_seq. lia.
+  Qed.
+
+  Theorem fp_cell : K_state_len -> forall i, fp (Rb i) (Wb i) (cell_prog V toZ K sp sh pviews i).
+  Proof.
+    intros KL i. unfold cell_prog. cbv zeta.
+    change (numInputSequences (prologue sh)) with nIn.
+    destruct (gomod i nIn) as [ci|] eqn:Eg; [|simpl; auto].
+    assert (Eci : ci = i mod nIn).
+    { unfold gomod in Eg. destruct (Nat.eqb nIn 0); inversion Eg; auto. }
+    subst ci.
+    apply fp_bind with (Q := fun _ => True); [apply fp_read_params; apply Rb_BP | apply results_true |].
+    intros cp _. apply fp_cell_body; auto using Rb_state, Rb_input, Rb_output, Wb_output, Wb_state.
+  Qed.
+
+  (** ** The exact footprint on a given memory.
+      The closed-form lists [cell_reads] / [cell_writes] of Wrapper/Run.v (the
+      ones extracted and compared with the recorded accesses of the real code)
+      contain every access the goroutine performs when started in memory [m]:
+      in particular exactly the parameter elements of set [i mod nSets], with
+      table extents read from the cell's own dimension parameters. *)
+  Lemma exec_rd_mem b o (m : mem) : mem_of (exec addr_eq_dec (rd V sh b o) m) = m /\
+    forall x, res_of (exec addr_eq_dec (rd V sh b o) m) = Some x -> x = m (b, o).
+  Proof.
+    unfold rd. destruct (o <? bsize sh b); simpl; split; auto; intros x H; inversion H; auto.
+  Qed.
+  Lemma exec_rd_list_mem b : forall offs (m : mem), mem_of (exec addr_eq_dec (rd_list V sh b offs) m) = m.
+  Proof.
+    induction offs as [|o r IH]; intros m; simpl; auto.
+    rewrite exec_bind. destruct (exec_rd_mem b o m) as [Em _].
+    destruct (exec addr_eq_dec (rd V sh b o) m) as [[r0 m0] t0]. unfold mem_of in Em; simpl in Em. subst m0.
+    destruct r0; auto. rewrite exec_bind. specialize (IH m).
+    destruct (exec addr_eq_dec (rd_list V sh b r) m) as [[r1 m1] t1]. unfold mem_of in IH; simpl in IH. subst m1.
+    destruct r1; reflexivity.
+  Qed.
+
+  Lemma exec_bind_mem {X Y} (q : prog addr V X) (f : X -> prog addr V Y) (m : mem) :
+    mem_of (exec addr_eq_dec q m) = m -> (forall x, mem_of (exec addr_eq_dec (f x) m) = m) ->
+    mem_of (exec addr_eq_dec (bind q f) m) = m.
+  Proof.
+    intros Hq Hf. rewrite exec_bind. destruct (exec addr_eq_dec q m) as [[r0 m0] t0].
+    unfold mem_of in Hq; simpl in Hq. subst m0. destruct r0; auto.
+    specialize (Hf x). destruct (exec addr_eq_dec (f x) m) as [[r1 m1] t1]. exact Hf.
+  Qed.
+  (** reading the parameters changes nothing *)
+  Lemma exec_read_params_mem i (m : mem) : forall ps views env,
+    mem_of (exec addr_eq_dec (read_params V toZ sh i ps views env) m) = m.
+  Proof.
+    induction ps as [|p ps IH]; intros [|pv views] env; simpl; auto.
+    destruct p.
+    - destruct (gomod i (len1 pv)); [|reflexivity].
+      apply exec_bind_mem; [apply exec_rd_mem|]. intros x. apply exec_bind_mem; [apply IH|reflexivity].
+    - destruct (gomod i (len1 pv)); [|reflexivity].
+      apply exec_bind_mem; [apply exec_rd_mem|]. intros x. apply exec_bind_mem; [apply IH|reflexivity].
+    - destruct (gomod i (last (wdims pv) 0)); [|reflexivity].
+      apply exec_bind_mem; [apply exec_rd_list_mem|]. intros x. apply exec_bind_mem; [apply IH|reflexivity].
+  Qed.
+
+  Lemma fp_on_read_params (R W : addr -> bool) (m : mem) i : 1 <= nSets ->
+    forall ps row env,
+    (forall o, In o (concat (param_offs toZ maxd nSets (i mod nSets) (fun o => m (BP, o)) row env ps)) -> R (BP, o) = true) ->
+    fp_on addr_eq_dec R W (read_params V toZ sh i ps (pviews_from maxd nSets row ps) env) m.
+  Proof.
+    intros Hn. induction ps as [|p ps IH]; intros row env HR; [simpl; auto|].
+    destruct p as [|d|ds]; cbn [read_params pviews_from param_shape block_size];
+      unfold param_offs in HR; cbn [param_rows map concat] in HR.
+    - unfold len1. cbn [wdims nth strides lprod]. rewrite gomod_ok by exact Hn.
+      replace (get1_off {| wstart := row * nSets; wstr := [1]; wdims := [nSets] |} (i mod nSets))
+        with (row * nSets + i mod nSets) by (unfold get1_off; simpl; lia).
+      destruct (exec_rd_mem BP (row * nSets + i mod nSets) m) as [Em Ex].
+      apply fp_on_bind.
+      + apply fp_fp_on. apply fp_rd. apply HR. simpl. left. reflexivity.
+      + intros x _. rewrite Em. apply fp_on_bind; [|intros; simpl; auto].
+        apply IH. intros o Ho. apply HR. simpl. right. exact Ho.
+    - unfold len1. cbn [wdims nth strides lprod]. rewrite gomod_ok by exact Hn.
+      replace (get1_off {| wstart := row * nSets; wstr := [1]; wdims := [nSets] |} (i mod nSets))
+        with (row * nSets + i mod nSets) by (unfold get1_off; simpl; lia).
+      destruct (exec_rd_mem BP (row * nSets + i mod nSets) m) as [Em Ex].
+      apply fp_on_bind.
+      + apply fp_fp_on. apply fp_rd. apply HR. simpl. left. reflexivity.
+      + intros x Hx. rewrite Em. apply Ex in Hx. subst x. apply fp_on_bind; [|intros; simpl; auto].
+        apply IH. intros o Ho. apply HR. simpl. right. exact Ho.
+    - cbn [wdims]. rewrite last_snoc. rewrite gomod_ok by exact Hn.
+      rewrite table_slice_offsets.
+      apply fp_on_bind.
+      + apply fp_fp_on. apply fp_rd_list. apply Forall_forall. intros o Ho. apply HR.
+        apply in_or_app. left. exact Ho.
+      + intros x _. rewrite exec_rd_list_mem. apply fp_on_bind; [|intros; simpl; auto].
+        apply IH. intros o Ho. apply HR. apply in_or_app. right. exact Ho.
+  Qed.
+
+  Theorem cell_footprint_exact : K_state_len -> 1 <= nSets ->
+    forall i (m : mem) e, In e (trace_of (exec addr_eq_dec (cell_prog V toZ K sp sh pviews i) m)) ->
+    if is_write e then In (ev_addr e) (cell_writes sp sh i)
+    else In (ev_addr e) (cell_reads V toZ sp sh maxd (fun o => m (BP, o)) i).
+  Proof.
+    intros KL Hn i m e Hin.
+    set (R := fun a => inb a (cell_reads V toZ sp sh maxd (fun o => m (BP, o)) i)).
+    assert (F : fp_on addr_eq_dec R (Wb i) (cell_prog V toZ K sp sh pviews i) m).
+    { unfold cell_prog. cbv zeta. change (numInputSequences (prologue sh)) with nIn.
+      destruct (gomod i nIn) as [ci|] eqn:Eg; [|simpl; auto].
+      assert (Eci : ci = i mod nIn).
+      { unfold gomod in Eg. destruct (Nat.eqb nIn 0); inversion Eg; auto. }
+      subst ci.
+      assert (Hin_reads : forall a, In a (cell_state_addrs sp sh i ++ cell_input_reads sp sh i ++ cell_output_addrs sp sh i) -> R a = true).
+      { intros a Ha. unfold R. apply inb_true. unfold cell_reads. apply in_or_app. right. exact Ha. }
+      apply fp_on_bind.
+      - apply fp_on_read_params; auto. intros o Ho. unfold R. apply inb_true. unfold cell_reads.
+        apply in_or_app. left. unfold cell_param_reads. apply in_tag. split; auto.
+      - intros cp _. apply fp_fp_on. apply fp_cell_body; auto using Wb_output, Wb_state.
+        + intros o Ho. apply Hin_reads. apply in_or_app. left. rewrite state_addrs_eq. apply in_tag. auto.
+        + intros o Ho. apply Hin_reads. apply in_or_app. right. apply in_or_app. left.
+          rewrite input_reads_eq. apply in_tag. auto.
+        + intros o Ho. apply Hin_reads. apply in_or_app. right. apply in_or_app. right.
+          rewrite output_addrs_eq. apply in_tag. auto. }
+    pose proof (exec_trace_in_fp_on addr_eq_dec _ _ _ m F e Hin) as H.
+    destruct (is_write e).
+    - unfold Wb in H. apply inb_true in H. exact H.
+    - unfold R in H. apply inb_true in H. exact H.
   Qed.
 
   (** ** cells_disjoint: different cells = different rows. *)
